@@ -45,6 +45,7 @@ func coreC06(tier string) []RunSpec {
 	for k := 0; k < 16; k++ {
 		out = append(out, RunSpec{Profile: "core:racing-reject", Params: map[string]int{"rr": 1, "k": k}})
 		out = append(out, RunSpec{Profile: "core:racing-shared-outputs", Params: map[string]int{"rr": 2, "k": k}})
+		out = append(out, RunSpec{Profile: "core:racing-melts-shared-inputs", Params: map[string]int{"rr": 3, "k": k}})
 	}
 	for sk := 0; sk < 7; sk++ {
 		for k := 0; k < 2; k++ {
@@ -454,6 +455,10 @@ func c06RacingReject(rc *RunCtx, m *MW, i int) {
 		c06RacingSharedOutputs(rc, m, i, n)
 		return
 	}
+	if rc.P("rr", 0) == 3 || (rc.P("rr", 0) == 0 && T.Chance("rr.melts", 1, 3)) {
+		c06RacingMelts(rc, m, i, n)
+		return
+	}
 	rc.Op(fmt.Sprintf("racing-reject mint x%d", n))
 	var mq *MintQuote
 	rc.Quietly(func() {
@@ -521,6 +526,99 @@ func c06RacingReject(rc *RunCtx, m *MW, i int) {
 	if signed > 0 {
 		W.Book.Violate("C06.changed_state", "mint|race-sigs", "a mint request that was answered with an error left %d stored signatures behind", signed)
 	}
+}
+
+// c06RacingMelts: n melt requests, each with its own quote, present the SAME inputs; the payments stay
+// in flight. At most one request locks the inputs; every request answered with an error must leave
+// them exactly as the winner put them: locked (PENDING) for the winner's quote, which stays PENDING.
+func c06RacingMelts(rc *RunCtx, m *MW, i int, n int) {
+	W := rc.W
+	ins := m.pickProofs("A", 1+rc.T.Choose("rm.k", 2))
+	if ins == nil {
+		m.StepFund()
+		return
+	}
+	fee := m.feeFor("A", ins)
+	sum := SumH(ins)
+	if sum <= fee+2 {
+		m.StepFund()
+		return
+	}
+	rc.Op(fmt.Sprintf("racing-reject melt x%d sharing their inputs", n))
+	amt := (sum - fee) / 2
+	qs := make([]*MeltQuote, n)
+	rc.Quietly(func() {
+		for k := range qs {
+			inv := W.LN.NewExternalInvoice(amt * 1000)
+			W.LN.Scripts[inv.Hash] = &LNScript{Pay: "pending"}
+			qs[k], _ = m.User.ReqMeltQuote("A", inv.Bolt11, 0)
+		}
+	})
+	for _, q := range qs {
+		if q == nil || q.Amount+q.Reserve+fee > sum {
+			return
+		}
+	}
+	state := make([]string, n) // PENDING / PAID / "error" / "" (no answer)
+	rc.S.BeginEpisode()
+	for k := 0; k < n; k++ {
+		k := k
+		name := fmt.Sprintf("s%d.rm%d", i, k)
+		rc.S.Go(name, W.Ext, true, func() {
+			a := NewActor(W, name)
+			r := a.Melt("A", qs[k].ID, ins)
+			switch {
+			case r.Err != nil:
+			case r.OK():
+				state[k] = RespState(r)
+			default:
+				state[k] = "error"
+			}
+		})
+	}
+	rc.S.Drive(false)
+	rc.S.Probe("c06_racing_melts")
+	rc.Nontrivial = true
+	winner := -1
+	errs := 0
+	for k, st := range state {
+		if st == "PENDING" || st == "PAID" {
+			winner = k
+		} else if st == "error" {
+			errs++
+		}
+	}
+	if winner >= 0 {
+		m.User.remove("A", ins)
+		m.Pending = append(m.Pending, &PendingMelt{Mint: "A", Q: qs[winner], Ins: ins, Key: "A|" + qs[winner].Hash, Known: true})
+	}
+	if winner < 0 || errs == 0 || state[winner] != "PENDING" {
+		return
+	}
+	rc.Quietly(func() {
+		a := NewActor(W, fmt.Sprintf("s%d.rmq", i))
+		Ys := make([]string, len(ins))
+		for k, p := range ins {
+			Ys[k] = p.Y()
+		}
+		if r := a.CheckState("A", Ys); r.OK() {
+			if arr, _ := r.Body["states"].([]any); len(arr) == len(Ys) {
+				for k := range arr {
+					if st, _ := arr[k].(map[string]any)["state"].(string); st != "PENDING" {
+						W.Book.Violate("C06.changed_state", "melt|race-shared-inputs", "%d melt requests presented the same inputs; one locked them for a payment that is in flight, %d were answered with an error - and afterwards input %d is %s instead of PENDING: a rejected request changed it", n, errs, k, st)
+						return
+					}
+				}
+			}
+		}
+		for k, q := range qs {
+			if k != winner && state[k] == "error" {
+				if st := RespState(a.PollMeltQuote("A", q.ID)); st != "UNPAID" {
+					W.Book.Violate("C06.changed_state", "melt|race-shared-inputs-quote", "a melt request answered with an error left its quote %s instead of UNPAID", st)
+				}
+			}
+		}
+	})
 }
 
 // c06RacingSharedOutputs: n paid quotes, n concurrent mint requests that all carry the same
